@@ -164,6 +164,9 @@ func cmdDump(args []string) {
 			if os.Getenv("GOVC_LEAN") == "1" {
 				o.Lean = true
 			}
+			if os.Getenv("GOVC_LAMBDAQ") == "1" {
+				o.Lambda = true
+			}
 			fmt.Printf("; %s\n%s\n", o.Name, o.Query(true))
 			return
 		}
